@@ -66,6 +66,7 @@ THEOREMS = [
     "XalanModel.Props.C09.backtracking_class_total",
     "XalanModel.Props.C09.match_iff_select_repaired",
     "XalanModel.Props.C09.idkey_match_iff_select",
+    "XalanModel.Props.C09.explicit_axis_irrelevant",
 ]
 
 
@@ -373,7 +374,8 @@ def in_sound_class(P):
 
 # ------------------------------------------------------------------------------------------------ use sites
 
-XSL_HEAD = '<xsl:stylesheet version="1.0" xmlns:xsl="http://www.w3.org/1999/XSL/Transform"><xsl:output method="text"/>'
+XSL_HEAD = ('<xsl:stylesheet version="1.0" xmlns:xsl="http://www.w3.org/1999/XSL/Transform" xmlns:p="nsP" xmlns:q="nsQ">'
+            '<xsl:output method="text"/>')
 
 
 def xml_escape(t):
@@ -395,6 +397,8 @@ def gen_fn_patterns(r, k):
             st = g.gen_step(r, i == n - 1, False)
             if st["test"][0] == "node":
                 st["test"] = ("any", None)
+            if i == 0 and r.chance(1, 2):
+                st["explicit"] = True              # key('k','v')/child::b//c : the slash after key() is still pending
             t += seps[i] + g.render_step(st)
         out.append(t)
     return out
@@ -570,7 +574,7 @@ def idkey_stream(ctx, harness, model, work, ndocs, npat):
     r = Rng(ctx.seed * 104729 + 7)
     lines, meta = ["variant %d %d %d %d" % VARIANT], [None]
     for _ in range(ndocs):
-        doc = g.gen_doc(r, r.range(4, 22))
+        doc = g.gen_doc(r, r.range(4, 22), ns=False)
         ids = g.add_ids(r, doc)
         if not ids:
             continue
@@ -586,8 +590,10 @@ def idkey_stream(ctx, harness, model, work, ndocs, npat):
             S = sorted(idx[id(ids[v])] for v in vals if v in ids)
             n = r.weighted([(0, 1), (1, 4), (2, 3), (3, 1)])
             steps = [(r.choice("cd"), g.gen_step(r, i == n - 1, False)) for i in range(n)]
+            if steps and r.chance(1, 2):
+                steps[0][1]["explicit"] = True     # the branch reached with the slash after id() still pending
             text = txt + "".join(("/" if sep == "c" else "//") + g.render_step(st) for sep, st in steps)
-            toks = " ".join("%s:%s:%s:%s" % (sep, "a" if st["attr"] else "c", g.tok_test(st["test"]),
+            toks = " ".join("%s:%s:%s:%s" % (sep, g.tok_axis(st), g.tok_test(st["test"]),
                                              ",".join(g.tok_pred(q) for q in st["preds"]) or "-") for sep, st in steps)
             lines.append("fpat %s %s %s %s" % (text.encode().hex(), "".join("%04x" % ord(ch) for ch in txt),
                                                ",".join(map(str, S)) or "-", toks))
@@ -622,6 +628,47 @@ def idkey_stream(ctx, harness, model, work, ndocs, npat):
     ctx.oblige("correspondence (id()-leading patterns): op codes F/G, getMatchScore of every node and the expression "
                "engine's answer = Lean model (getMatchScoreFn, Spec.matchesFn)", "correspondence", ok and not dis,
                json.dumps(dis[:3]) + ierr[-300:] + merr[-300:])
+
+
+def spaced(text, r):
+    """the same pattern with ExprWhitespace between tokens (XPath 1.0 3.7)"""
+    import re
+    sp = lambda: " " * r.range(0, 2)   # noqa: E731
+    out = re.sub(r"//|/|\||\[|\]|=|!=|<|>|::|\(|\)", lambda m: sp() + m.group(0) + sp(), text.replace("!=", "\x00"))
+    return (" " * r.range(0, 1) + out + " " * r.range(0, 1)).replace("\x00", " != ")
+
+
+def whitespace_stream(ctx, harness, cases, work, limit):
+    """implementation only: whitespace between the tokens of a pattern changes neither the compiled op codes nor any
+    node's score or the defining side"""
+    r = Rng(ctx.seed * 31337 + 5)
+    lines, meta = ["variant %d %d %d %d" % VARIANT], [None]
+    for doc, pats in cases[:limit]:
+        lines.append(g.doc_line(doc)); meta.append(None)
+        for P in pats[:6]:
+            t = g.render_pattern(P)
+            for txt in (t, spaced(t, r)):
+                lines.append("pat %s rel" % txt.encode().hex()); meta.append((t, txt, g.xml_of(doc)))
+    req = os.path.join(work, "c09_ws.req")
+    with open(req, "w") as f:
+        f.write("\n".join(lines) + "\n")
+    import subprocess
+    p = subprocess.run([harness], stdin=open(req, "rb"), stdout=subprocess.PIPE, stderr=subprocess.PIPE, timeout=1800)
+    out = p.stdout.decode("utf-8", "replace").split("\n")
+    bad, n = [], 0
+    for li in range(len(meta) - 1):
+        if meta[li] and meta[li + 1] and meta[li][0] == meta[li + 1][0] and meta[li][1] == meta[li][0] and meta[li + 1][1] != meta[li][0] or \
+                (meta[li] and meta[li + 1] and meta[li][0] == meta[li + 1][0] and meta[li][1] == meta[li][0]):
+            a = parse_reply(out[li] if li < len(out) else None)
+            b = parse_reply(out[li + 1] if li + 1 < len(out) else None)
+            n += 1
+            if a is None or b is None or (a["codes"], a["m"], a["s"], a["amb"]) != (b["codes"], b["m"], b["s"], b["amb"]):
+                bad.append(dict(pattern=meta[li][0], spaced=meta[li + 1][1], doc=meta[li][2],
+                                plain=out[li] if li < len(out) else None, with_spaces=out[li + 1] if li + 1 < len(out) else None))
+    ctx.extra["whitespace_variations"] = dict(pairs=n, differing=len(bad))
+    for b in bad[:5]:
+        ctx.fail("whitespace: %s" % b["spaced"], "pattern %r vs %r on %s: %s / %s" % (
+            b["pattern"], b["spaced"], b["doc"], b["plain"], b["with_spaces"]), b)
 
 
 def gen_cases(r, ndocs, npat, maxnodes):
@@ -701,6 +748,7 @@ def run(ctx):
                not ctx.extra.get("violations_inside_proved_class"),
                json.dumps(ctx.extra.get("violations_inside_proved_class", [])[:3]))
     use_sites(ctx, cases, REPLIES.get("main", {}), work, 150 if not ctx.thorough else 1500)
+    whitespace_stream(ctx, harness, cases, work, 120 if not ctx.thorough else 1500)
     if VARIANT[3]:
         idkey_stream(ctx, harness, model, work, 300 if not ctx.thorough else 6000, 8)
     ctx.oblige("correspondence: step op codes, XPath::getMatchScore of every node and the expression engine's answer "
